@@ -162,7 +162,7 @@ struct Node
     template<typename A0, typename... A,
              typename = std::enable_if_t<(is_val<A0>::value && ... && is_val<A>::value)
                                          && !(sizeof...(A) == 0 && !std::is_same_v<std::decay_t<A0>, ctpg::term_value<Node>> && !std::is_same_v<std::decay_t<A0>, ctpg::term_value<ctpg::no_type>>)>>
-    Node(A0&& a0, A&&... a);
+    explicit Node(A0&& a0, A&&... a);      // explicit: never a candidate when the library converts a value INTO its variant
     Node(std::initializer_list<Node> il);
 };
 
